@@ -1,6 +1,6 @@
 """C01 — CQL value encoding conforms to the protocol and round-trips.
 
-Proof stage: Props/C01.vo (17 pinned theorems about Model/Cql.v + Model/Vint.v).
+Proof stage: Props/C01.vo (36 pinned theorems + 10 pinned Examples about Model/Cql.v, Model/CqlTyped.v, Model/Vint.v).
 Tie stage: harness/src/bin/c01.rs runs the real scylla-cql-core codec, ocaml/c01/driver evaluates
 the extracted model; census of the Rust enums / tables the model was written from.
 """
@@ -8,9 +8,9 @@ import json
 import os
 import re
 
-from orchestrate.common import run_check, ROOT
+from orchestrate.common import run_check, ROOT, REPO
 
-CORE = "/repo/scylla-cql-core/src"
+CORE = os.path.join(REPO, "scylla-cql-core", "src")
 
 # ---- the lists the model (coq/Model/Cql.v) was written from -----------------------------------
 CQLVALUE = ["Ascii", "Boolean", "Blob", "Counter", "Decimal", "Date", "Double", "Duration", "Empty", "Float",
@@ -156,7 +156,7 @@ def floors(lines, verdicts):
             bad.append(f"floor not reached: {name}: {count(pred)} < {floor}")
     # the typed model (Model/CqlTyped.v) must really have been compared on most T cases and on the E cases
     nT = kinds.get("T", 0)
-    tm = sum(1 for ln, v in zip(lines, verdicts) if ln.startswith("T ") and v and v.startswith("ok tm"))
+    tm = sum(1 for ln, v in zip(lines, verdicts) if ln.startswith("T ") and v and (v == "ok tm" or v.startswith("ok tm ")))
     if tm < 0.6 * nT:
         bad.append(f"typed model compared on only {tm} of {nT} T cases")
     e_cmp = sum(1 for ln, v in zip(lines, verdicts) if ln.startswith("E ") and v == "ok")
@@ -199,7 +199,9 @@ def _depth(s):
 def extra_coverage(lines, verdicts):
     cov = {"type_depth_histogram": {}, "carriers": 0, "ser_ok": 0, "ser_err": 0, "deser_err": 0,
            "outside_quantifier_accepted_not_read_back": sum(1 for v in verdicts if v and v.startswith("ok obs=")),
-           "typed_model_compared_T": sum(1 for ln, v in zip(lines, verdicts) if ln.startswith("T ") and v and v.startswith("ok tm")),
+           "typed_model_compared_T": sum(1 for ln, v in zip(lines, verdicts) if ln.startswith("T ") and v and (v == "ok tm" or v.startswith("ok tm "))),
+           "typed_model_partial_T": sum(1 for ln, v in zip(lines, verdicts) if ln.startswith("T ") and v and v.startswith("ok tm-partial")),
+           "typed_decoder_E_unembeddable": sum(1 for ln, v in zip(lines, verdicts) if ln.startswith("E ") and v == "ok unembeddable"),
            "typed_decoder_E_compared": sum(1 for ln, v in zip(lines, verdicts) if ln.startswith("E ") and v == "ok"),
            "ipv4_mapped_inet_cases": sum(1 for ln in lines if "inet:" + MAPPED in ln),
            "known_class_hits": {}, "census": "in step" if not census() else "MISMATCH"}
@@ -234,15 +236,18 @@ SPEC = {
     "sizes": {"quick": 150000, "thorough": 3000000},
     "search_n": 400000,
     "min_cases": {"quick": 140000, "thorough": 2800000},
-    "rule": ("fixed part: every vint length class boundary (2^k, 2^k +- 1, both signs) and every native type x "
-             "{empty, null, unset}; then seeded random cases, type nesting depth <= 4 (quick) / 6 (thorough): "
-             "R = (column type, cell) through SerializedValues::add_value(&CqlValue) and Option<CqlValue>::deserialize "
-             "(40% values of the type incl. boundary numerics, NaN payloads, non-normalised varints, short tuples/UDTs, "
-             "nulls at every position, empty cells; 8% with type/arity/name mismatches); T = the same through one of "
-             "~130 typed Rust carriers; V/Q = Vec<MaybeUnset<Option<MaybeEmpty<T>>>> bound to vector / list; D = the "
-             "decoder on truncated / corrupted / random bytes; N = vint codec.  Corpus cases (F13 witnesses, F2/F14 "
-             "witnesses) are appended.  non-trivial = every case except R/T lines whose cell is a bare null/unset; "
-             "distinct = distinct case lines"),
+    "rule": ("fixed part: every vint length class boundary (2^k, 2^k +- 1, both signs), every native type x {empty, null, unset}, "
+             "directed inet addresses (IPv4-mapped / -compatible, ::, ::1, all ones, v4 extremes) through the dynamic path and the "
+             "typed carriers, long payloads (3-byte vint element lengths) and wide collections; then seeded random cases, type nesting "
+             "depth <= 4 (quick) / 6 (thorough): R = (column type, cell) through SerializedValues::add_value(&CqlValue) and "
+             "Option<CqlValue>::deserialize (40% values of the type incl. boundary numerics, NaN payloads, non-normalised varints, "
+             "short tuples/UDTs, nulls at every position, empty cells; 8% with type/arity/name mismatches); T = the same through one "
+             "of 138 typed Rust carriers, compared with the model of the dynamic path AND with the typed model (verdict ok tm; "
+             "ok tm-partial when the decoded carrier value has no dynamic counterpart and only the bytes were compared); V/Q = "
+             "Vec<MaybeUnset<Option<MaybeEmpty<T>>>> bound to vector / list; E = a typed carrier's own decoder on intact / corrupted / "
+             "random bytes, null cells and zero-length cells against typed_read; D = the dynamic decoder on truncated / corrupted / "
+             "random bytes; N = vint codec.  Corpus cases (F13 witnesses, F2/F14 witnesses) are appended.  non-trivial = every case "
+             "except R/T lines whose cell is a bare null/unset; distinct = distinct case lines"),
     "nontrivial": lambda ln: not re.match(r"^(R \S+|T \S+ \S+) (null|unset) \|", ln),
     "post": post,
     "extra_coverage": extra_coverage,
@@ -252,9 +257,13 @@ SPEC = {
         "Cassandra 5 / ScyllaDB vector format; the set of types that admit the legacy empty value is ScyllaDB's",
         "hooks scylla_cql_core::frame::types::verif_vint (pass-through to the crate-private vint codec) and "
         "scylla_cql_core::value::verif_extern (re-export of chrono/time/num-bigint/bigdecimal/secrecy for the harness)",
-        "typed carriers are tied by differential execution against the model of the dynamic path (no per-carrier theorem); "
-        "HashSet/HashMap carriers are compared up to element order",
-        "checks/c01.py census (enum variants, type_size_for_vector, supports_special_empty_value, empty-cell rule, impl counts)",
+        "typed carriers: 20 leaf families, wrappers, collections and tuples are modelled (Model/CqlTyped.v) and proved to write / read "
+        "what the dynamic value they embed into writes / reads (C01_typed_write/_read/_roundtrip), and that model is tied on the T "
+        "and E cases; bigdecimal, chrono and time carriers are tied by differential execution against the dynamic model only; "
+        "the case line carries the carrier value as its embedded cell after a round trip through the carrier "
+        "(from_cell . to_cell in the runner) - trusted harness code; HashSet/HashMap carriers are compared up to element order, "
+        "BTree / Hash decode results up to order and duplicates",
+        "checks/c01.py census (enum variants, type_size_for_vector, supports_special_empty_value, empty-cell rule, the named lists of SerializeValue / DeserializeValue impl heads in checks/c01_heads.json)",
     ],
     "assumptions": [
         "usize is 64 bits (u64 -> usize of a vector element length never fails); type_size_for_vector products do not overflow usize",
